@@ -397,6 +397,7 @@ class CompiledSimulation(object):
         self._initialize_mems.restype = None
         self._mem_lookup = self._dll.lookup
         self._mem_lookup.restype = ctypes.POINTER(ctypes.c_uint64)
+        self._mem_lookup.argtypes = [ctypes.c_void_p, ctypes.c_uint64]  # 64-bit keys, not C int
 
     def _limbs(self, w):
         """ Number of 64-bit words needed to store value of wire. """
